@@ -77,7 +77,8 @@ template <class L> void concU(size_t n, const std::vector<std::string> &ops, uns
 
 // CONC D|U <lk> <n> : ops | T R s t | v v v
 int main() {
-    char tmpl[] = "/tmp/bgconcXXXXXX"; if (!mkdtemp(tmpl)) return 3; scratch = tmpl;
+    std::string tdir = std::string(getenv("TMPDIR") ? getenv("TMPDIR") : "/tmp") + "/bgconcXXXXXX"; std::vector<char> tmpl(tdir.begin(), tdir.end()); tmpl.push_back(0);
+    if (!mkdtemp(tmpl.data())) return 3; scratch = tmpl.data();
     std::string line;
     while (std::getline(std::cin, line)) {
         auto c = line.find(':'); if (c == std::string::npos) continue;
